@@ -6,12 +6,24 @@ PRELUDE_BLOCK = ['00_base.rs', '05_ranges.rs', '10_inout.rs', '20_cipher.rs', '3
 
 
 def xor_fn(props=('C02',), kani=('xor_helper',)):
-    """`fn xor(out, buf)`: iterator-adapter body (iter_mut().zip()) is outside the Verus subset ->
-    external_body, contract checked by Kani (bounded in N)."""
-    return FnC(external_body=True,
+    """`fn xor(out, buf)`: `for (a, b) in out.iter_mut().zip(buf) { *a ^= *b; }` over two Arrays, verified with the
+    shim iterator of prelude/00_base.rs (element-wise pairing of zip is the assumed part)."""
+    return FnC(attrs=['#[verifier::loop_isolation(false)]'],
                ensures=[('out', props, 'final(out)@ == xor_seq(old(out)@, buf@)')],
-               props=props, kani=kani,
-               note='iter_mut().zip(): std iterator adapters cannot be specified (orphan rule); contract checked by Kani, bounded in N')
+               props=props, kani=kani, iters={0: 'it'},
+               stmts={'0': 'broadcast use Array::axiom_len;', 'end': '''
+    proof {
+        assert forall |j: int| 0 <= j < N::USIZE implies final(out)@[j] == old(out)@[j] ^ buf@[j] by {}
+        assert(final(out)@ =~= xor_seq(old(out)@, buf@));
+    }
+'''},
+               loops={0: '''
+        invariant
+            it.history@.len() == it.index@,
+            it.history@ + azip_remaining(&it.iter) == azip_remaining(&it.snapshot@),
+            azip_remaining(&it.snapshot@).len() == N::USIZE,
+            forall |j: int| 0 <= j < it.index@ ==> mut_ref_future(#[trigger] azip_remaining(&it.snapshot@)[j].0) == old(out)@[j] ^ buf@[j],
+'''})
 
 
 def frame_iv_backend(cipher_field='cipher_backend', iv_fields=('iv',)):
